@@ -2,59 +2,84 @@
 
 The real simulators (treesim.birth_death_tree, birthdeath.fast_birth_death_tree, treesim.uniform_pure_birth_tree,
 treesim.pure_kingman_tree / mean_kingman_tree / constrained_kingman_tree / contained_coalescent_tree,
-coalescent.coalesce_nodes, and the vectorising wrapper treesim.rand_trees) are run on generated (parameters, seed)
-jobs; every argument object is rebuilt from the job descriptor for every run.  Monitors / oracle clauses:
+reconcile.ContainingTree.simulate_contained_kingman / embed_contained_kingman, coalescent.coalesce_nodes, the
+vectorising wrapper treesim.rand_trees, and the pass-through wrappers of dendropy.legacy.treesim) are run on
+generated (parameters, seed) jobs; every argument object is rebuilt from the job descriptor for every run, except
+in the *re-use* step, where the very same argument objects are handed to the simulator a second time.
+Monitors / oracle clauses:
 
  spec (on the DendroPy-free spec extracted from the raw child lists of the returned tree, plus vf.mon.arbor.check)
-   birth-death / pure birth, grown to N extant tips, extinct lineages pruned (default), no gsa_ntax:
+   birth-death / pure birth, grown to N extant tips (given as num_extant_tips= or through the accepted alias
+   ntax=), extinct lineages pruned (default), no gsa_ntax:
      well-formed   arborescence walker silent
      tip-count     exactly N leaves
-     taxa          every leaf carries a taxon; the N taxa are pairwise distinct objects with distinct labels
+     taxa          every leaf carries a taxon; the N taxa are pairwise distinct objects (and, when the supplied
+                   namespace had no two taxa with one label, pairwise distinct labels)
      bifurcating   every internal node has exactly two children
      equidistant   all leaves at the same distance from the root (root edge ignored), 1e-9 relative
    pure / mean Kingman tree over a namespace of N taxa:
      well-formed, bifurcating, equidistant (= ultrametric), and leaf taxa = the namespace's taxa, each exactly once
-   gene tree inside a species tree (contained_coalescent_tree, constrained_kingman_tree; species trees are
-   ultrametric with dyadic lengths, so divergence times are exact):
-     well-formed; for every internal gene node v, every two leaves x (species a), y (species b != a) below
-     different children of v: dist(x, v) >= dist_S(a, mrca_S(a, b)) and dist(y, v) >= dist_S(b, mrca_S(a, b))
-     (1e-9 relative slack) -- i.e. no join of different species more recent than their divergence.
+   gene tree inside a species tree (contained_coalescent_tree, constrained_kingman_tree, ContainingTree.*_kingman;
+   species trees have dyadic or integral lengths, so divergence times are exact; ultrametric or not, with or
+   without a length on the root edge, with zero-length edges, with taxa on internal species nodes):
+     well-formed
+     gene-leaf-set the leaves carry exactly the genes that were to be simulated, each once: the domain of the
+                   gene -> species mapping, resp. the labels constrained_kingman_tree obtained from its
+                   gene_node_label_fn during THIS call (default label function: "<species>_<nn>")
+     genes-sampled constrained_kingman_tree drew the requested number of genes (per species / in total)
+     join times    for every internal gene node v, every two leaves x (species a), y (species b != a) below
+                   different children of v: dist(x, v) >= dist_S(a, mrca_S(a, b)) and dist(y, v) >= dist_S(b, mrca_S(a, b))
+                   (1e-9 relative slack) -- i.e. no join of different species more recent than their divergence.
  rng tripwire
-   while a simulator runs with an explicit ``rng``, every public method of dendropy.utility.GLOBAL_RNG and every
-   module-level function of ``random`` is a recorder (stack kept); any hit is a violation.  The states of both
-   generators are compared before/after as a second line.  When ``rng`` is omitted only module-level ``random`` is
-   watched (GLOBAL_RNG is the documented default).
+   while a simulator runs with an explicit ``rng`` (keyword or positional), every public method of
+   dendropy.utility.GLOBAL_RNG and every module-level function of ``random`` is a recorder (stack kept); any hit is
+   a violation, one per distinct stray source.  The states of both generators are compared before/after as a
+   second line.  When ``rng`` is omitted / None only module-level ``random`` is watched (GLOBAL_RNG is the
+   documented default).
  determinism (ordered structure + taxon labels + node labels + exact float lengths must be identical)
-   (a) in-process: twice from random.Random(seed) with fresh arguments;
+   (a) in-process: twice from generators in equal states (freshly seeded / already drawn from / state copied with
+       getstate-setstate) with fresh arguments;
    (b) across interpreters: the same jobs in two further child processes started with subprocess, one with another
        PYTHONHASHSEED, one with PYTHONHASHSEED unset (other hash seeds, other heap addresses);
-   (c) default generator: GLOBAL_RNG.seed(seed) + call without rng  ==  call with rng=Random(seed).
+   (c) default generator: GLOBAL_RNG put into that state + call with rng omitted or rng=None  ==  explicit call
+       (the documented "otherwise GLOBAL_RNG is used" read as: GLOBAL_RNG takes the place of rng);
+   (d) same arguments again: the same argument objects + an equal generator state, for the simulators that do not
+       document changing their arguments (see reuse_comparable).
  restart path
    Node.clear_child_nodes called from a birth-death simulator's frame = the restart-after-total-extinction branch
    was executed; counted so that the evidence shows the specification was judged on such runs.
 
-Keys: spec|<simulator>|<clause>[|detail] ; rng-tripwire|<simulator>|<generator.method>|<innermost library function>
-(first stray call of the monitored call; "nested-simulator-called-without-the-rng" when a hooked simulator was seen being
-called without a generator inside a call that was given one) ; determinism|<simulator>|<what differs>|<in-process |
-cross-process | default-generator>, where <what differs> is decided on the two encodings: gene-taxa-permuted-within-
-species (equal after relabelling gene leaves by species) / child-order-only / leaf-labels-permuted / lengths-only /
-topology.  When the tripwire fired for a job its determinism comparisons are skipped (same root cause, one key).
-The witness case of every violation is the single job ({"kind": "jobs", "jobs": [job]}), re-runnable with --replay.
+Keys: spec|<simulator>|<clause>[|detail][|second-call-on-the-same-arguments] ;
+rng-tripwire|<simulator>|<generator.method>|<innermost library function> (one per distinct stray source of the
+monitored call; "nested-simulator-called-without-the-rng" for the GLOBAL_RNG calls made below a hooked simulator that
+was seen being called without a generator inside a call that was given one; rand_trees is keyed as "rand_trees" for the
+mapping / callable forms and as "rand_trees(iterable-of-mappings)" for that separate branch) ; determinism|<simulator>|<what differs>|
+<in-process | cross-process | default-generator | same-arguments-again>, where <what differs> is decided on the two
+encodings: gene-taxa-permuted-within-species (equal after relabelling gene leaves by species) / child-order-only /
+leaf-labels-permuted / lengths-only / topology ; <simulator>(rng=None)|unexpected-exception|... for a call that spells
+the default generator as rng=None.  When the tripwire fired for a job its determinism comparisons are skipped (same
+root cause, one key).  The witness case of every violation is the single job ({"kind": "jobs", "jobs": [job]}),
+re-runnable with --replay.
 
-Soundness limits: only the tip-count stopping rule (num_extant_tips), extinct tips pruned, no gsa_ntax, no ``tree=``
-continuation, birth > death >= 0 (rate drift sd only tiny, and death drift only when death >= 0.3*birth); population
-sizes > 0; every species that reaches contained_coalescent_tree has >= 1 gene; species trees carry lengths on all
-non-root edges.  A tree whose lengths are all zero satisfies "equidistant" (the statement asks no more).  Gene trees are
-only judged on the join-time clause (their leaf taxa being *copies* outside the gene tree's namespace after
-constrained_kingman_tree(decorate_original_tree=False) is recorded, not judged; so are a mismatch between the number of
-gene leaves and the number of genes, and extant leaves lacking the ``is_extinct`` attribute).  A differing *namespace*
-after two runs is not judged, only the returned tree.  Re-using one species-tree object across calls is explored
-(note), not judged.  coalesce_nodes called directly is judged for tripwire + determinism only.  rand_trees is judged
-with birth_death_tree as model function (mapping without rng / mapping with rng / callable keyword generator).  A child
-interpreter that dies or times out makes the case inconclusive, never a verdict."""
+Soundness limits: only the tip-count stopping rule (num_extant_tips / ntax alias) of the continuous-time simulators
+(treesim.discrete_birth_death_tree, whose generations are synchronous and whose ``ntax`` is a stopping threshold, is
+outside the statement), extinct tips pruned, no gsa_ntax, no ``tree=`` continuation, birth > death >= 0 (rate drift sd
+only tiny, and death drift only when death >= 0.3*birth); every LEAF species that reaches contained_coalescent_tree /
+ContainingTree has >= 1 gene (constrained_kingman_tree is also driven with gene-less species); species trees carry
+lengths on all non-root edges; taxa on internal species nodes never own genes.  A tree whose lengths are all zero
+satisfies "equidistant" (the statement asks no more).  Gene-tree leaf taxa being *copies* outside the gene tree's
+namespace after constrained_kingman_tree(decorate_original_tree=False) is recorded, not judged; so are extant leaves
+lacking the extinct attribute, and the number of trees rand_trees yields.  A differing *namespace* after two runs is
+not judged, only the returned tree.  coalesce_nodes called directly is judged for tripwire + determinism only.
+rand_trees is judged with birth_death_tree as model function (mapping / list of mappings, each without and with rng;
+callable keyword generator).  After ContainingTree.embed_contained_kingman with fit_containing_edge_lengths=True the
+containing tree's lengths are rewritten by the fit, so that object is not simulated in again.  A child interpreter
+that dies or times out makes the case inconclusive, never a verdict."""
+import inspect
 import json
 import os
 import random
+import re
 import subprocess
 import sys
 
@@ -66,23 +91,32 @@ from . import _c18_util as U
 PROP = "C18"
 LEVEL = "exploration"
 TECHNIQUE = ("runtime monitoring: hooks on the real simulators + spec predicates on the extracted tree, RNG tripwire "
-             "(recorders on GLOBAL_RNG / module-level random), in-process and cross-interpreter determinism, restart-path counter")
+             "(recorders on GLOBAL_RNG / module-level random), in-process, cross-interpreter, default-generator and "
+             "same-arguments-again determinism, restart-path counter")
 LEVEL_TEXT = ("Runtime monitors (hooks on the simulator entry points, spec predicates on the tree extracted from the raw child "
-              "lists, an RNG tripwire on GLOBAL_RNG / module-level random, reruns in-process and in two further interpreters) observe "
-              "the real simulators on generated (parameters, seed) jobs; the property held on the executions listed in the evidence "
-              "file, nothing more.")
+              "lists, an RNG tripwire on GLOBAL_RNG / module-level random, reruns in-process, on the same argument objects and in "
+              "two further interpreters) observe the real simulators on generated (parameters, seed) jobs; the property held on "
+              "the executions listed in the evidence file, nothing more.")
 LEVEL_NOTE = ("Trusted: the spec predicates and species-divergence tables of the property module (on vf/ref.py, vf/bridge.py, "
               "vf/mon/arbor.py), CPython's random.Random and subprocess; coverage is the seeds / parameters the workload reached "
               "(see evidence). Distributional correctness of the simulators is not part of the property and is not examined.")
-RULE = ("cases = batches of jobs (simulator x parameters x seed); parameters: tip counts 1..40 (quick) / 1..300 (thorough), "
-        "birth > death >= 0 incl. death/birth = 0.9, six namespace configurations, pop sizes 0.5..1e4, 1-5 genes per species on "
-        "random ultrametric species trees (polytomies, unary nodes, per-edge pop sizes), three gene sampling strategies; "
+RULE = ("cases = batches of jobs (simulator x parameters x seed); parameters: tip counts 1..40 (quick) / 1..300 (thorough) given "
+        "as num_extant_tips or the ntax alias, birth > death >= 0 incl. death/birth = 0.9 and 0.99, integer rates, rates 1e-6 / 1e6, "
+        "thirteen namespace configurations (none / empty / fewer / exact / more / colliding T<k> labels / lower- and mixed-case "
+        "look-alikes / case-sensitive / blanks / random labels / duplicate labels / labels differing in case only), pop sizes "
+        "None, 0, 1e-6..1e9, 1-5 genes per species (0 for constrained_kingman_tree) on random species trees (ultrametric or not, "
+        "zero-length edges, integer lengths, root edge with / without length, polytomies, unary nodes, taxa on internal nodes, "
+        "per-edge pop sizes under default / other attribute names), three gene sampling strategies, five kinds of gene -> species "
+        "mapping, default / own gene label function, three ContainingTree routes, legacy wrappers; generators fresh / used / "
+        "state-copied, by keyword / positional / omitted / None; a quarter of the jobs re-use their argument objects; "
         "a job is non-trivial when its tree has >= 3 leaves (gene trees: >= 1 cross-species join judged); "
         "distinct = distinct (simulator, parameters, seed)")
 REACH = ["birthdeath:birth_death_tree", "birthdeath:fast_birth_death_tree", "birthdeath:uniform_pure_birth_tree",
          "coalescent:coalesce_nodes", "coalescent:time_to_coalescence", "coalescent:expected_tmrca",
          "coalescent:pure_kingman_tree", "coalescent:mean_kingman_tree", "coalescent:constrained_kingman_tree",
-         "coalescent:contained_coalescent_tree", "probability:weighted_choice", "treesim:rand_trees"]
+         "coalescent:contained_coalescent_tree", "probability:weighted_choice", "treesim:rand_trees",
+         "reconcile:ContainingTree.simulate_contained_kingman", "reconcile:ContainingTree.embed_contained_kingman",
+         "treesim:birth_death", "treesim:contained_coalescent", "treesim:constrained_kingman"]
 MIN_EVENTS = {"spec:bd-tree-judged": (300, 10000), "spec:kingman-tree-judged": (150, 5000),
               "spec:gene-tree-judged": (150, 5000), "spec:cross-species-joins-judged": (1000, 50000),
               "determinism:in-process-judged": (800, 30000), "determinism:cross-process-judged": (1500, 60000),
@@ -90,11 +124,49 @@ MIN_EVENTS = {"spec:bd-tree-judged": (300, 10000), "spec:kingman-tree-judged": (
               "tripwire:armed-calls": (1500, 60000), "restart:runs-that-restarted": (40, 1000),
               "hook:treesim.birth_death_tree:return": (100, 3000),
               "hook:treesim.contained_coalescent_tree:return": (60, 2000),
-              "hook:coalescent.coalesce_nodes:return": (500, 20000)}
+              "hook:coalescent.coalesce_nodes:return": (500, 20000),
+              # per-simulator gene-tree monitors (the three implementations of the constrained coalescent)
+              "spec:gene-tree-judged:contained_coalescent_tree": (280, 4000),
+              "spec:gene-tree-judged:constrained_kingman_tree": (270, 3800),
+              "spec:gene-tree-judged:ContainingTree.simulate_contained_kingman": (190, 2700),
+              "spec:gene-tree-judged:ContainingTree.embed_contained_kingman": (85, 1200),
+              "spec:cross-species-joins-judged:contained_coalescent_tree": (3000, 450000),
+              "spec:cross-species-joins-judged:constrained_kingman_tree": (2300, 350000),
+              "spec:cross-species-joins-judged:ContainingTree.simulate_contained_kingman": (1900, 300000),
+              "spec:cross-species-joins-judged:ContainingTree.embed_contained_kingman": (950, 150000),
+              "spec:gene-leaf-set-judged": (800, 11000),
+              "hook:reconcile.ContainingTree.simulate_contained_kingman:return": (360, 5000),
+              "hook:reconcile.ContainingTree.embed_contained_kingman:return": (160, 2200),
+              # re-use histories, generator forms
+              "reuse:second-calls-judged": (420, 6000), "determinism:same-arguments-again-judged": (300, 4200),
+              "determinism:default-generator-spelled-omit": (120, 1700),
+              "determinism:default-generator-spelled-none": (110, 1500),
+              "input:rng-positional": (330, 4600), "input:rng-used": (430, 6000), "input:rng-state": (420, 5900),
+              # input classes / option dimensions / API routes of the judged jobs
+              "input:namespace-label-class": (220, 3000), "input:namespace-label-class:tlower": (30, 420),
+              "input:namespace-label-class:tmixed": (28, 400), "input:namespace-label-class:sensitive": (28, 400),
+              "input:namespace-label-class:blanks": (30, 420), "input:namespace-label-class:random": (30, 420),
+              "input:namespace-label-class:dups": (20, 280), "input:namespace-label-class:selfcase": (28, 400),
+              "input:tip-count-given-as-ntax-alias": (65, 900), "input:legacy-wrapper": (100, 1400),
+              "input:extreme-or-integer-rates": (175, 2400),
+              "input:species-root-edge-has-length": (370, 5000), "input:species-internal-taxa": (150, 2100),
+              "input:species-lengths:ultra0": (120, 1700), "input:species-lengths:int": (130, 1800),
+              "input:species-lengths:nonultra": (120, 1700), "input:default-gene-label-function": (70, 950),
+              "input:species-without-genes": (17, 230),
+              "input:rand_trees:mapping": (1, 20), "input:rand_trees:mapping+rng": (1, 20),
+              "input:rand_trees:callable": (1, 20), "input:rand_trees:list": (1, 20), "input:rand_trees:list+rng": (1, 20)}
 ASSUMPTIONS = ["oracles are computed on a DendroPy-free spec extracted from raw child lists; species divergence times come from "
-               "the generator's own spec of the species tree (dyadic lengths, exact)",
+               "the generator's own spec of the species tree (dyadic / integral lengths, exact)",
                "float comparisons 1e-9 relative (equidistance, join times); determinism is exact equality",
-               "heap addresses / hash seeds differ between the parent and the two child interpreters (not controlled, observed)"]
+               "heap addresses / hash seeds differ between the parent and the two child interpreters (not controlled, observed)",
+               "the statement is read for the continuous-time simulators; treesim.discrete_birth_death_tree (synchronous "
+               "generations, ntax is a stopping threshold) and the general-sampling option are outside it",
+               "'otherwise GLOBAL_RNG is used' (docstrings) is read as: with rng omitted or None the simulator draws from "
+               "GLOBAL_RNG exactly as it would from rng, so determinism (c) compares the two runs",
+               "a gene tree simulated for a set of genes has exactly those genes as leaves (the statement quantifies over the "
+               "numbers of genes per species; a tree without them is not a simulation of them)",
+               "handing the same argument objects to a simulator again is an admissible parameter setting; equality with the "
+               "first result is only demanded where the simulator does not document changing its arguments"]
 CASE_TIMEOUT = 420
 SHARD_TIMEOUT = {"quick": 1800, "thorough": 7200}
 CHILD_TIMEOUT = 300
@@ -102,6 +174,8 @@ CHILD_TIMEOUT = 300
 HOOKED = (("treesim", "birth_death_tree"), ("treesim", "uniform_pure_birth_tree"), ("treesim", "pure_kingman_tree"),
           ("treesim", "mean_kingman_tree"), ("treesim", "constrained_kingman_tree"),
           ("treesim", "contained_coalescent_tree"), ("birthdeath", "fast_birth_death_tree"))
+CT_METHODS = ("simulate_contained_kingman", "embed_contained_kingman")
+REUSE_TAG = "second-call-on-the-same-arguments"
 
 
 # ------------------------------------------------------------------------------------------
@@ -123,6 +197,12 @@ def _bd(sim, n, birth, death, seed, ns="none", **kw):
 def _contained(nsp, genes, seed, tseed=1, **kw):
     return dict({"sim": "contained_coalescent_tree", "nsp": nsp, "tseed": tseed, "genes_fixed": genes, "seed": seed,
                  "mapping": "create", "pop": "default", "scale": 1, "defpop": 1, "attrname": "pop_size"}, **kw)
+
+
+def _containing(nsp, genes, seed, tseed=1, **kw):
+    return dict({"sim": "containing_tree_kingman", "nsp": nsp, "tseed": tseed, "genes_fixed": genes, "seed": seed,
+                 "mapping": "create", "pop": "default", "scale": 1, "defpop": 1, "attrname": "pop_size",
+                 "method": "simulate", "expected": False, "fit": False}, **kw)
 
 
 def _constrained(nsp, strategy, ngenes, seed, tseed=1, **kw):
@@ -168,13 +248,96 @@ def _directed_jobs(name):
         jobs.append(_constrained(1, "random_uniform", 4, 0))
         jobs.append(_constrained(5, "random_uniform", None, 0, tseed=5))
         jobs += [{"sim": "rand_trees", "form": f, "n": 5, "reps": 3, "birth": 1.0, "death": 0.5, "seed": s}
-                 for f in ("mapping", "mapping+rng", "callable") for s in (0, 1)]
+                 for f in ("mapping", "mapping+rng", "callable", "list", "list+rng") for s in (0, 1)]
         jobs[0]["default"] = True
+        return jobs
+    if name == "label-classes":            # namespace label classes x both birth-death simulators
+        jobs = []
+        for cfg in U.NS_CFGS[5:]:
+            for sim in ("birth_death_tree", "fast_birth_death_tree"):
+                for n, death, s in ((4, 0.0, 0), (9, 0.5, 1)):
+                    jobs.append(_bd(sim, n, 1.0, death, s, ns=cfg))
+        for j in jobs[::5]:
+            j["reuse"] = True
+            j["n2"] = j["n"] + 4
+        return jobs
+    if name == "aliases":                  # accepted argument aliases, legacy wrappers, option spellings
+        jobs = []
+        for s in range(4):
+            for sim in ("birth_death_tree", "fast_birth_death_tree"):
+                jobs.append(_bd(sim, 8, 1.0, 0.5, s, alias="ntax", ns=U.NS_CFGS[s]))
+                jobs.append(_bd(sim, 6, 1.0, 0.8, s, alias="ntax+assign", extattr="gone"))
+                jobs.append(_bd(sim, 5, 1.0, 0.5, s, norepeat=True))
+            jobs.append(_bd("birth_death_tree", 7, 2, 1, s, legacy=True, alias="ntax"))
+            jobs.append({"sim": "uniform_pure_birth_tree", "n": 6, "birth": 1, "seed": s, "legacy": True})
+            jobs.append({"sim": "pure_kingman_tree", "n": 6, "pop": None, "seed": s, "legacy": True, "rngpass": "pos"})
+            jobs.append({"sim": "mean_kingman_tree", "n": 6, "pop": 0, "seed": s, "legacy": True})
+            jobs.append(_contained(3, 2, s, tseed=6, legacy=True))
+            jobs.append(_constrained(3, "fixed_per_population", 2, s, tseed=6, legacy=True, labelfn="default"))
+        return jobs
+    if name == "containing-tree":          # the third constrained-coalescent implementation
+        jobs = []
+        for s in range(3):
+            jobs.append(_containing(1, 3, s))
+            jobs.append(_containing(3, 3, s, tseed=7, mapping=U.MAPPINGS[s]))
+            jobs.append(_containing(3, 2, s, tseed=100 + s, scale=128, method="embed", mapping="rawdict"))
+            jobs.append(_containing(5, 2, s, tseed=200 + s, scale=128, method="embed", fit=True, mapping="attr"))
+            jobs.append(_containing(4, 2, s, tseed=300 + s, scale=64, expected=True, mapping="fn", pop="random",
+                                    attrname="ne"))
+            jobs.append(_containing(4, 3, s, tseed=400 + s, scale=1024, reuse=True, rngpass="pos", mapping="dict"))
+        jobs[1]["default"] = True
+        jobs[2]["default"] = True
+        jobs[2]["defspell"] = "none"
+        return jobs
+    if name == "species-classes":          # species-tree input classes x the three gene-tree simulators
+        jobs = []
+        k = 0
+        for lens in ("ultra", "ultra0", "int", "nonultra"):
+            for rootlen in (None, 0.0, 0.5):
+                k += 1
+                extra = {"lens": lens, "rootlen": rootlen, "inttaxa": k % 2 == 0, "scale": (1, 64, 256)[k % 3]}
+                jobs.append(_contained(4, 2, k, tseed=500 + k, mapping=U.MAPPINGS[k % 5], **extra))
+                jobs.append(_containing(4, 2, k, tseed=500 + k, mapping=U.MAPPINGS[(k + 1) % 5], **extra))
+                jobs.append(_constrained(4, U.STRATEGIES[k % 3], 2, k, tseed=500 + k, labelfn=("own", "default")[k % 2],
+                                         gzero=(k % 3 == 2), ngattr=("num_genes", "k")[k % 2],
+                                         psattr=("pop_size", "ne")[k % 2], pop="random", **extra))
+        return jobs
+    if name == "reuse":                    # the same argument objects handed to a simulator twice
+        jobs = []
+        for s in range(3):
+            for strat in U.STRATEGIES:
+                for decorate in (False, True):
+                    jobs.append(_constrained(3, strat, 3, s, tseed=600 + s, scale=64, decorate=decorate, reuse=True,
+                                             treelist=(s == 2), labelfn=("own", "default")[s % 2]))
+            jobs.append(_contained(3, 2, s, tseed=600 + s, scale=64, reuse=True, mapping=U.MAPPINGS[s]))
+            jobs.append(_containing(3, 2, s, tseed=600 + s, scale=64, reuse=True, method=("simulate", "embed")[s % 2]))
+            jobs.append(_bd("birth_death_tree", 5, 1.0, 0.25, s, ns="tlabels", reuse=True, n2=9))
+            jobs.append(_bd("fast_birth_death_tree", 5, 1.0, 0.25, s, ns="empty", reuse=True, n2=9))
+            jobs.append(_bd("birth_death_tree", 6, 1.0, 0.25, s, ns="exact", reuse=True, n2=6))
+            jobs.append({"sim": "pure_kingman_tree", "n": 6, "pop": 1, "seed": s, "reuse": True})
+            jobs.append({"sim": "uniform_pure_birth_tree", "n": 6, "birth": 1.0, "seed": s, "reuse": True})
+        return jobs
+    if name == "rng-forms":                # generator states and the ways of handing the generator over
+        jobs = []
+        for s, form in enumerate(("used", "state", "fresh")):
+            for spell in ("omit", "none"):
+                extra = {"rngform": form, "default": True, "defspell": spell}
+                jobs.append(_bd("birth_death_tree", 6, 1.0, 0.5, s, **extra))
+                jobs.append(_bd("fast_birth_death_tree", 6, 1.0, 0.5, s, **extra))
+                jobs.append(dict({"sim": "uniform_pure_birth_tree", "n": 6, "birth": 1.0, "seed": s, "rngpass": "pos"}, **extra))
+                jobs.append(dict({"sim": "pure_kingman_tree", "n": 6, "pop": 2, "seed": s, "rngpass": "pos"}, **extra))
+                jobs.append(dict({"sim": "mean_kingman_tree", "n": 6, "pop": 2, "seed": s, "rngpass": "pos"}, **extra))
+                jobs.append(dict({"sim": "coalesce_nodes", "n": 6, "pop": 1, "period": 2, "expected": False, "seed": s,
+                                  "rngpass": "pos"}, **extra))
+                jobs.append(_contained(3, 2, s, tseed=700, rngpass="pos", **extra))
+                jobs.append(_constrained(3, "random_uniform", 5, s, tseed=700, rngpass="pos", **extra))
+                jobs.append(_containing(3, 2, s, tseed=700, rngpass="pos", **extra))
         return jobs
     raise ValueError(name)
 
 
-DIRECTED = ("contained-set-order", "smallest", "restarts", "gene-trees")
+DIRECTED = ("contained-set-order", "smallest", "restarts", "gene-trees", "label-classes", "aliases", "containing-tree",
+            "species-classes", "reuse", "rng-forms")
 
 
 # ------------------------------------------------------------------------------------------
@@ -186,6 +349,10 @@ def viol(ctx, job, key, what, detail=None):
         ctx.violation(key, what, detail)
     finally:
         ctx.case = saved
+
+
+def _key(sim, clause, tag):
+    return "spec|%s|%s%s" % (sim, clause, "|" + tag if tag else "")
 
 
 class Monitor(object):
@@ -200,26 +367,39 @@ class Monitor(object):
         self.rc = None
         self.last = None
         self.job = None
-        self.nested_without_rng = False
+        self.nested_names = set()
+        self.rng_pos = {"rand_trees": 0, "rand_trees(iterable-of-mappings)": 0}
 
-    def _explicit(self, name, args, kw):
+    def _learn_signature(self, name, fn, method=False):
+        """position of ``rng`` among the positional parameters (None: keyword only / **kwargs)."""
+        try:
+            params = list(inspect.signature(fn).parameters)
+        except (TypeError, ValueError):
+            return
+        if method and params and params[0] == "self":
+            params = params[1:]
+        if "rng" in params:
+            self.rng_pos[name] = params.index("rng")
+
+    def _rng_of(self, name, args, kw):
         if kw.get("rng") is not None:
-            return True
-        if name == "rand_trees" and args and args[0] is not None:
-            return True
-        return False
+            return kw["rng"]
+        pos = self.rng_pos.get(name)
+        if pos is not None and len(args) > pos:
+            return args[pos]
+        return None
 
     def mk_pre(self, name):
         def pre(obj, args, kw):
             if self.active:
-                if name != "coalesce_nodes" and kw.get("rng") is None:
-                    self.nested_without_rng = True      # e.g. rand_trees calling its model_fn without the generator
+                if name != "coalesce_nodes" and self._rng_of(name, args, kw) is None:
+                    self.nested_names.add(name)      # e.g. rand_trees calling its model_fn without the generator
                 return None
             self.active = True
-            self.nested_without_rng = False
+            self.nested_names = set()
             self.tw = U.Tripwire()
             self.rc = U.RestartCounter()
-            explicit = self._explicit(name, args, kw)
+            explicit = self._rng_of(name, args, kw) is not None
             self.rc.install()
             self.tw.arm(watch_global_rng=explicit)
             self.ctx.ev("tripwire:armed-calls")
@@ -241,17 +421,24 @@ class Monitor(object):
         ctx = self.ctx
         name = snap["name"]
         if self.tw.hits:
-            # one violation per monitored call, keyed by the first stray call (deterministic) -- or, when a nested
-            # simulator was observed being called without the generator, by that mechanism
-            which, inner, stack = self.tw.hits[0]
+            # one violation per distinct stray source of the monitored call.  GLOBAL_RNG calls made below a nested
+            # simulator that was observed being called without the generator are keyed by that mechanism
             ctx.ev("tripwire:hits", len(self.tw.hits))
-            if self.nested_without_rng and snap["explicit"]:
-                key = "rng-tripwire|%s|%s|nested-simulator-called-without-the-rng" % (name, which.split(".")[0])
-            else:
-                key = "rng-tripwire|%s|%s|%s" % (name, which, inner)
-            viol(ctx, self.job, key, "%s was called (from %s) while %s ran with %s" % (
-                which, inner, name, "an explicit rng" if snap["explicit"] else "the default generator"),
-                {"job": self.job, "stack": stack, "stray_calls": len(self.tw.hits)})
+            seen = {}
+            for which, inner, stack in self.tw.hits:
+                below_nested = any(fr.split(":")[1] in self.nested_names for fr in stack if fr.count(":") >= 2)
+                if snap["explicit"] and which.startswith("GLOBAL_RNG.") and below_nested:
+                    key = "rng-tripwire|%s|GLOBAL_RNG|nested-simulator-called-without-the-rng" % name
+                else:
+                    key = "rng-tripwire|%s|%s|%s" % (name, which, inner)
+                if key in seen:
+                    seen[key][3] += 1
+                else:
+                    seen[key] = [which, inner, stack, 1]
+            for key, (which, inner, stack, count) in seen.items():
+                viol(ctx, self.job, key, "%s was called (from %s) while %s ran with %s" % (
+                    which, inner, name, "an explicit rng" if snap["explicit"] else "the default generator"),
+                    {"job": self.job, "stack": stack, "stray_calls": count})
         if changed and not self.tw.hits:
             for which in changed:
                 viol(ctx, self.job, "rng-tripwire|%s|state-changed-without-recorded-call|%s" % (name, which),
@@ -268,11 +455,18 @@ class Monitor(object):
 
     def install(self, hooks, inner_hooks):
         from dendropy.simulate import treesim
-        from dendropy.model import birthdeath, coalescent
+        from dendropy.model import birthdeath, coalescent, reconcile
         mods = {"treesim": treesim, "birthdeath": birthdeath}
         for m, name in HOOKED:
+            self._learn_signature(name, getattr(mods[m], name))
             hooks.install(mods[m], name, pre=self.mk_pre(name), post=self.mk_post(name), tag="%s.%s" % (m, name))
+        for meth in CT_METHODS:
+            nm = "ContainingTree.%s" % meth
+            self._learn_signature(nm, getattr(reconcile.ContainingTree, meth), method=True)
+            hooks.install(reconcile.ContainingTree, meth, pre=self.mk_pre(nm), post=self.mk_post(nm),
+                          tag="reconcile.%s" % nm)
         # coalesce_nodes: counted on every call (also when called by the tree simulators); armed only when outermost
+        self._learn_signature("coalesce_nodes", coalescent.coalesce_nodes)
         inner_hooks.install(coalescent, "coalesce_nodes", pre=self.mk_pre("coalesce_nodes"),
                             post=self.mk_post("coalesce_nodes"), tag="coalescent.coalesce_nodes", outermost_only=False)
 
@@ -283,72 +477,98 @@ def _tol(x):
     return 1e-9 * max(1.0, abs(x))
 
 
-def _shape_clauses(ctx, sim, spec, job, want_bifurcating=True):
+def _shape_clauses(ctx, sim, spec, job, tag=None, want_bifurcating=True):
     """bifurcating + equidistant on a spec; returns False when violated."""
     ok = True
     for n in ref.preorder(spec):
         k = len(n[3])
         if k and k != 2 and want_bifurcating:
-            viol(ctx, job, "spec|%s|not-bifurcating|%s" % (sim, "outdegree-1" if k == 1 else "outdegree>2"),
-                          "an internal node has %d children" % k, {"job": job, "tree": ref.to_newick(spec)[:1500]})
+            viol(ctx, job, _key(sim, "not-bifurcating|%s" % ("outdegree-1" if k == 1 else "outdegree>2"), tag),
+                 "an internal node has %d children" % k, {"job": job, "tree": ref.to_newick(spec)[:1500]})
             ok = False
             break
     d = [x for n, x, _ in ref.root_distances(spec) if not n[3]]
     if d and max(d) - min(d) > _tol(max(d)):
-        viol(ctx, job, "spec|%s|tips-not-equidistant-from-root" % sim,
-                      "leaf root distances range from %r to %r" % (min(d), max(d)),
-                      {"job": job, "tree": ref.to_newick(spec)[:1500]})
+        viol(ctx, job, _key(sim, "tips-not-equidistant-from-root", tag),
+             "leaf root distances range from %r to %r" % (min(d), max(d)),
+             {"job": job, "tree": ref.to_newick(spec)[:1500]})
         ok = False
     return ok
 
 
-def _well_formed(ctx, sim, tree, job):
+def _well_formed(ctx, sim, tree, job, tag=None):
     probs = arbor.check(tree)
     if probs:
-        viol(ctx, job, "spec|%s|not-well-formed" % sim, "; ".join(probs), {"job": job})
+        viol(ctx, job, _key(sim, "not-well-formed", tag), "; ".join(probs), {"job": job})
         return None
     try:
         return bridge.extract(tree, with_nodes=True)
     except bridge.ExtractError as e:
-        viol(ctx, job, "spec|%s|not-well-formed" % sim, str(e), {"job": job})
+        viol(ctx, job, _key(sim, "not-well-formed", tag), str(e), {"job": job})
         return None
 
 
-def judge_bd(ctx, sim, tree, n, job):
+_GENERATED = re.compile(r"^T[0-9]+$")
+_GENERATED_CASELESS = re.compile(r"^[tT][0-9]+$")
+
+
+def judge_bd(ctx, sim, tree, n, job, aux=None, tag=None):
     ctx.ev("spec:bd-tree-judged")
-    got = _well_formed(ctx, sim, tree, job)
+    got = _well_formed(ctx, sim, tree, job, tag)
     if got is None:
         return
     spec, nodes = got
+    before = (aux or {}).get("ns_before") or []          # [(id, label)] of the supplied namespace before the call
     leaves = [(s, nd) for s, nd in nodes if not s[3]]
     if len(leaves) != n:
-        viol(ctx, job, "spec|%s|tip-count|%s" % (sim, "fewer" if len(leaves) < n else "more"),
-                      "%d leaves, %d extant tips requested" % (len(leaves), n),
-                      {"job": job, "tree": ref.to_newick(spec)[:1500]})
+        viol(ctx, job, _key(sim, "tip-count|%s" % ("fewer" if len(leaves) < n else "more"), tag),
+             "%d leaves, %d extant tips requested" % (len(leaves), n),
+             {"job": job, "tree": ref.to_newick(spec)[:1500]})
     taxa = [nd.taxon for s, nd in leaves]
     if any(t is None for t in taxa):
-        viol(ctx, job, "spec|%s|leaf-without-taxon" % sim, "%d of %d leaves carry no taxon" % (
+        viol(ctx, job, _key(sim, "leaf-without-taxon", tag), "%d of %d leaves carry no taxon" % (
             sum(1 for t in taxa if t is None), len(taxa)), {"job": job, "tree": ref.to_newick(spec)[:1500]})
     else:
         if len(set(map(id, taxa))) != len(taxa):
-            viol(ctx, job, "spec|%s|taxa-not-distinct" % sim, "a taxon sits on two leaves",
-                          {"job": job, "tree": ref.to_newick(spec)[:1500]})
+            seen = set()
+            shared = None
+            for t in taxa:
+                if id(t) in seen:
+                    shared = t
+                    break
+                seen.add(id(t))
+            supplied = id(shared) in set(i for i, _ in before)
+            lbl = shared.label
+            if supplied and isinstance(lbl, str) and _GENERATED_CASELESS.match(lbl) and not _GENERATED.match(lbl):
+                disc = "supplied-taxon-whose-label-equals-a-generated-label-caselessly"
+            elif supplied:
+                disc = "supplied-taxon"
+            else:
+                disc = "created-taxon"
+            viol(ctx, job, _key(sim, "taxa-not-distinct|%s" % disc, tag),
+                 "the taxon %r sits on two leaves" % (lbl,),
+                 {"job": job, "tree": ref.to_newick(spec)[:1500], "supplied_labels": [l for _, l in before][:50]})
         elif len(set(t.label for t in taxa)) != len(taxa):
-            viol(ctx, job, "spec|%s|taxon-labels-not-distinct" % sim, "two leaf taxa share a label",
-                          {"job": job, "tree": ref.to_newick(spec)[:1500]})
+            if len(set(l for _, l in before)) == len(before):
+                viol(ctx, job, _key(sim, "taxon-labels-not-distinct", tag),
+                     "two leaf taxa share a label although no two supplied taxa did",
+                     {"job": job, "tree": ref.to_newick(spec)[:1500]})
+            else:
+                ctx.note("%s:leaf-taxa-share-a-label-as-in-the-supplied-namespace" % sim)
         ns = tree.taxon_namespace
         if any(not any(t is x for x in ns) for t in taxa[:50]):
             ctx.note("%s:leaf-taxon-outside-tree-namespace" % sim)
-    _shape_clauses(ctx, sim, spec, job)
-    if job.get("attr") and len(leaves) > 1 and any(not hasattr(nd, "is_extinct") for s, nd in leaves):
-        ctx.note("%s:extant-leaf-without-is_extinct-attribute" % sim)
+    _shape_clauses(ctx, sim, spec, job, tag)
+    attr = job.get("extattr") or "is_extinct"
+    if job.get("attr") and len(leaves) > 1 and any(not hasattr(nd, attr) for s, nd in leaves):
+        ctx.note("%s:extant-leaf-without-extinct-attribute" % sim)
     if len(leaves) >= 3:
         ctx.nontrivial(("job", json.dumps(job, sort_keys=True)))
 
 
-def judge_kingman(ctx, sim, tree, ns, job):
+def judge_kingman(ctx, sim, tree, ns, job, tag=None):
     ctx.ev("spec:kingman-tree-judged")
-    got = _well_formed(ctx, sim, tree, job)
+    got = _well_formed(ctx, sim, tree, job, tag)
     if got is None:
         return
     spec, nodes = got
@@ -356,16 +576,17 @@ def judge_kingman(ctx, sim, tree, ns, job):
     want = sorted(id(t) for t in ns)
     have = sorted(id(t) for t in leaf_taxa if t is not None)
     if len(have) != len(leaf_taxa) or want != have:
-        viol(ctx, job, "spec|%s|not-one-leaf-per-taxon" % sim,
-                      "%d leaves (%d without taxon) for %d taxa" % (len(leaf_taxa), len(leaf_taxa) - len(have), len(want)),
-                      {"job": job, "tree": ref.to_newick(spec)[:1500]})
-    _shape_clauses(ctx, sim, spec, job)
+        viol(ctx, job, _key(sim, "not-one-leaf-per-taxon", tag),
+             "%d leaves (%d without taxon) for %d taxa" % (len(leaf_taxa), len(leaf_taxa) - len(have), len(want)),
+             {"job": job, "tree": ref.to_newick(spec)[:1500]})
+    _shape_clauses(ctx, sim, spec, job, tag)
     if len(leaf_taxa) >= 3:
         ctx.nontrivial(("job", json.dumps(job, sort_keys=True)))
 
 
 def species_tables(sspec):
-    """{species: root distance}, {(a, b): root distance of mrca(a, b)} from the generator's species spec."""
+    """{species: root distance}, {(a, b): root distance of mrca(a, b)} from the generator's species spec
+    (leaf species only; the root edge's own length cancels out)."""
     rd = {}
     below = {}
     for n, d, _ in ref.root_distances(sspec):
@@ -385,26 +606,92 @@ def species_tables(sspec):
     return leafd, mrca_d
 
 
-def judge_gene(ctx, sim, gtree, aux, job):
+_DEFAULT_LABEL = re.compile(r"^(.*)_([0-9]{2,})$")
+
+
+def gene_expectation(ctx, sim, job, aux, leaf_labels):
+    """({gene label: species} or None, [(clause, text)]): which genes the tree must have as leaves, from the job
+    (mapping domain / labels handed out by the label function during this call / the default label scheme)."""
+    problems = []
+    leaf_species = [n[0] for n in ref.preorder(aux["species"]) if not n[3]]
+    g2s = aux.get("g2s")
+    if job["sim"] == "constrained_kingman_tree":
+        strategy = job["strategy"]
+        if g2s is None:                               # default gene_node_label_fn
+            g2s = aux.get("expected_labels")
+            if g2s is None:                           # random_uniform: indices 1..num, species free
+                g2s = {}
+                idx = []
+                for lbl in leaf_labels:
+                    m = _DEFAULT_LABEL.match(lbl) if isinstance(lbl, str) else None
+                    if m and m.group(1) in leaf_species:
+                        g2s[lbl] = m.group(1)
+                        idx.append(int(m.group(2)))
+                want = set(range(1, aux["num_random"] + 1))
+                if want - set(idx):
+                    problems.append(("missing", "no leaf for gene indices %s" % sorted(want - set(idx))[:10]))
+                if set(idx) - want:
+                    problems.append(("extra", "leaves for gene indices %s outside 1..%d" % (
+                        sorted(set(idx) - want)[:10], aux["num_random"])))
+        else:
+            handed = aux.get("handed_out", [])
+            per = {}
+            for lbl in handed:
+                per[g2s[lbl]] = per.get(g2s[lbl], 0) + 1
+            if strategy == "random_uniform":
+                bad = len(handed) != aux["num_random"]
+                text = "%d genes sampled, %d requested" % (len(handed), aux["num_random"])
+            else:
+                if strategy == "fixed_per_population":
+                    want_per = dict((s, job["ngenes"]) for s in leaf_species)
+                else:
+                    gps = U.genes_per_species(job)
+                    want_per = dict((s, gps[s]) for s in leaf_species)
+                want_per = dict((s, k) for s, k in want_per.items() if k)
+                bad = per != want_per
+                text = "genes sampled per species %r, requested %r" % (sorted(per.items())[:10], sorted(want_per.items())[:10])
+            if bad:
+                problems.append(("genes-sampled", text))
+    want = set(g2s)
+    have = set(leaf_labels)
+    if want - have:
+        problems.append(("missing", "%d of %d genes have no leaf, e.g. %r" % (
+            len(want - have), len(want), sorted(want - have, key=repr)[:5])))
+    extra = [l for l in leaf_labels if l not in want]
+    if extra:
+        problems.append(("extra", "%d leaves carry a taxon that is none of the %d genes, e.g. %r" % (
+            len(extra), len(want), extra[:5])))
+    if len(have) != len(leaf_labels):
+        problems.append(("duplicate", "%d leaves carry %d different labels" % (len(leaf_labels), len(have))))
+    return g2s, problems
+
+
+def judge_gene(ctx, sim, gtree, aux, job, tag=None):
     ctx.ev("spec:gene-tree-judged")
-    got = _well_formed(ctx, sim, gtree, job)
+    ctx.ev("spec:gene-tree-judged:%s" % sim)
+    got = _well_formed(ctx, sim, gtree, job, tag)
     if got is None:
         return
     gspec, nodes = got
-    g2s = aux["g2s"]
+    leaf_labels = [n[0] for n in ref.preorder(gspec) if not n[3]]
+    g2s, problems = gene_expectation(ctx, sim, job, aux, leaf_labels)
+    reported = set()
+    for clause, text in problems:
+        if clause in reported:
+            continue
+        reported.add(clause)
+        k = "genes-sampled|differs-from-the-requested-number" if clause == "genes-sampled" else "gene-leaf-set|%s" % clause
+        viol(ctx, job, _key(sim, k, tag), text,
+             {"job": job, "gene_tree": ref.to_newick(gspec)[:1500], "species_tree": ref.to_newick(aux["species"])[:800]})
+    ctx.ev("spec:gene-leaf-set-judged")
+    if "extra" in reported:
+        return            # a leaf that is no gene of the job cannot be attributed to a species
     leafd, mrca_d = species_tables(aux["species"])
-    n_leaves = 0
     mind = {}
     joins = 0
     for n in ref.postorder(gspec):
         if not n[3]:
-            n_leaves += 1
-            sp = g2s.get(n[0])
-            if sp is None:
-                viol(ctx, job, "spec|%s|gene-leaf-not-attributable-to-a-species" % sim,
-                              "gene leaf with taxon label %r" % (n[0],), {"job": job, "tree": ref.to_newick(gspec)[:1500]})
-                return
-            mind[id(n)] = {sp: 0.0}
+            mind[id(n)] = {g2s[n[0]]: 0.0}
             continue
         kids = []
         for c in n[3]:
@@ -421,11 +708,12 @@ def judge_gene(ctx, sim, gtree, aux, job):
                         tb = leafd[b] - mrca_d[(a, b)]
                         if da < ta - _tol(ta) or db < tb - _tol(tb):
                             ctx.ev("spec:cross-species-joins-judged", joins)
-                            viol(ctx, job, "spec|%s|join-more-recent-than-species-divergence" % sim,
-                                          "lineages of %s and %s join %r / %r before the present, the species diverged %r / %r before it" % (
-                                              a, b, da, db, ta, tb),
-                                          {"job": job, "gene_tree": ref.to_newick(gspec)[:1500],
-                                           "species_tree": ref.to_newick(aux["species"])[:800]})
+                            ctx.ev("spec:cross-species-joins-judged:%s" % sim, joins)
+                            viol(ctx, job, _key(sim, "join-more-recent-than-species-divergence", tag),
+                                 "lineages of %s and %s join %r / %r before the present, the species diverged %r / %r before it" % (
+                                     a, b, da, db, ta, tb),
+                                 {"job": job, "gene_tree": ref.to_newick(gspec)[:1500],
+                                  "species_tree": ref.to_newick(aux["species"])[:800]})
                             return
         merged = {}
         for k in kids:
@@ -434,10 +722,9 @@ def judge_gene(ctx, sim, gtree, aux, job):
                     merged[sp] = d
         mind[id(n)] = merged
     ctx.ev("spec:cross-species-joins-judged", joins)
+    ctx.ev("spec:cross-species-joins-judged:%s" % sim, joins)
     if joins:
         ctx.nontrivial(("job", json.dumps(job, sort_keys=True)))
-    if n_leaves != len(g2s):
-        ctx.note("%s:gene-leaf-count-differs-from-gene-count" % sim)
     ns = gtree.taxon_namespace
     for s, nd in nodes:
         if not s[3] and nd.taxon is not None and not any(nd.taxon is x for x in ns):
@@ -445,73 +732,68 @@ def judge_gene(ctx, sim, gtree, aux, job):
             break
 
 
-def judge(ctx, job, result, call):
+def input_events(ctx, job):
+    """which input classes / option dimensions / API routes the judged jobs covered (MIN_EVENTS watches them)."""
     sim = job["sim"]
     if sim in ("birth_death_tree", "fast_birth_death_tree"):
-        judge_bd(ctx, sim, result, job["n"], job)
-    elif sim == "uniform_pure_birth_tree":
-        judge_bd(ctx, sim, result, job["n"], job)
+        if job.get("ns") in U.NS_CFGS[6:]:
+            ctx.ev("input:namespace-label-class")
+            ctx.ev("input:namespace-label-class:%s" % job["ns"])
+        if job.get("alias"):
+            ctx.ev("input:tip-count-given-as-ntax-alias")
+        if isinstance(job["birth"], int) or job["birth"] in (1e-6, 1e6) or job["death"] > 0.95 * job["birth"]:
+            ctx.ev("input:extreme-or-integer-rates")
+    if sim in U.GENE_SIMS:
+        ctx.ev("input:species-lengths:%s" % job.get("lens", "ultra"))
+        if job.get("rootlen") is not None:
+            ctx.ev("input:species-root-edge-has-length")
+        if job.get("inttaxa"):
+            ctx.ev("input:species-internal-taxa")
+        if job.get("labelfn") == "default":
+            ctx.ev("input:default-gene-label-function")
+        if job.get("gzero"):
+            ctx.ev("input:species-without-genes")
+    if job.get("legacy"):
+        ctx.ev("input:legacy-wrapper")
+    if job.get("rngpass") == "pos":
+        ctx.ev("input:rng-positional")
+    if job.get("rngform", "fresh") != "fresh":
+        ctx.ev("input:rng-%s" % job["rngform"])
+    if sim == "rand_trees":
+        ctx.ev("input:rand_trees:%s" % job["form"])
+
+
+def judge(ctx, job, result, call, tag=None):
+    sim = job["sim"]
+    nm = U.name(job)
+    if tag is None:
+        input_events(ctx, job)
+    if sim in U.BD_SIMS:
+        n = job["n"]
+        if tag and "n2" in job and sim != "uniform_pure_birth_tree":
+            n = job["n2"]
+        judge_bd(ctx, nm, result, n, job, call.aux, tag)
     elif sim in U.KINGMAN_SIMS:
-        judge_kingman(ctx, sim, result, call.aux["ns"], job)
+        judge_kingman(ctx, nm, result, call.aux["ns"], job, tag)
     elif sim == "constrained_kingman_tree":
-        judge_gene(ctx, sim, result[0], call.aux, job)
-    elif sim == "contained_coalescent_tree":
-        judge_gene(ctx, sim, result, call.aux, job)
+        judge_gene(ctx, nm, result[0], call.aux, job, tag)
+    elif sim in U.GENE_SIMS:
+        judge_gene(ctx, nm, result, call.aux, job, tag)
     elif sim == "rand_trees":
+        if len(result) != call.expected_count():
+            ctx.note("rand_trees:%s:number-of-trees-differs-from-replicates-x-mappings" % job["form"])
         for t in result:
-            judge_bd(ctx, "rand_trees>birth_death_tree", t, job["n"], job)
+            judge_bd(ctx, "rand_trees>birth_death_tree", t, job["n"], job, None, tag)
     elif sim == "coalesce_nodes":
+        # the statement says nothing about the forest of a direct call; it must at least be a forest (the
+        # determinism comparisons need an encoding), anything else would silently drop those comparisons
         ctx.ev("coalesce_nodes-forest-recorded")
-
-
-# ------------------------------------------------------------------------------------------
-# rand_trees (vectorising wrapper in treesim) as one more "simulator"
-def prepare_any(job, mon):
-    if job["sim"] != "rand_trees":
-        return U.prepare(job)
-    from dendropy.simulate import treesim
-    base = {"birth_rate": job["birth"], "death_rate": job["death"], "num_extant_tips": job["n"]}
-    return RandTreesCall(treesim, base, job, mon)
-
-
-class RandTreesCall(object):
-    """rand_trees returns a generator: the monitored window must span its consumption, so the pre/post
-    pair of the Monitor is applied here by hand instead of through vf.mon.hooks."""
-
-    def __init__(self, treesim, base, job, mon):
-        self.treesim, self.base, self.job, self.aux, self.mon = treesim, base, job, {}, mon
-
-    def invoke(self, rng):
-        mon = self.mon
-        snap = mon.mk_pre("rand_trees")(None, (rng,), {})
-        mon.ctx.ev("hook:treesim.rand_trees:call")
-        try:
-            res = self._invoke(rng)
-            mon.ctx.ev("hook:treesim.rand_trees:return")
-            return res
-        finally:
-            if snap is not None:
-                mon.finish(snap)
-
-    def _invoke(self, rng):
-        form = self.job["form"]
-        ts = self.treesim
-        if form == "mapping":
-            mk = dict(self.base)
-        elif form == "mapping+rng":
-            mk = dict(self.base, rng=rng)
-        else:
-            base = self.base
-
-            def mk(rep_idx, r):
-                return dict(base, rng=r)
-        return list(ts.rand_trees(rng, ts.birth_death_tree, mk, self.job["reps"]))
-
-
-def encode_any(job, result):
-    if job["sim"] == "rand_trees":
-        return [U.flat(bridge.extract(t)) for t in result]
-    return U.encode_result(job, result)
+        for nd in result:
+            try:
+                bridge.extract(nd)
+            except bridge.ExtractError as e:
+                viol(ctx, job, _key(nm, "not-well-formed", tag), str(e), {"job": job})
+                break
 
 
 # ------------------------------------------------------------------------------------------
@@ -525,7 +807,7 @@ def classify_diff(job, aux, enc_a, enc_b):
         if fa == fb:
             continue
         a, b = U.unflat(fa), U.unflat(fb)
-        if g2s is not None:
+        if g2s:
             ra = [[g2s.get(r[0], r[0])] + r[1:] for r in fa]
             rb = [[g2s.get(r[0], r[0])] + r[1:] for r in fb]
             if ra == rb:
@@ -550,11 +832,11 @@ def classify_diff(job, aux, enc_a, enc_b):
 
 def compare(ctx, job, aux, ref_enc, other, how, other_err=None, extra=None):
     """ref_enc: encoding of the judged in-process run; other: encoding (or None + error) of the other run."""
-    sim = job["sim"]
+    sim = U.name(job)
     ctx.ev("determinism:%s-judged" % how)
     if other is None:
         viol(ctx, job, "determinism|%s|other-run-raised|%s" % (sim, how),
-                      "second run raised %s where the first returned a tree" % other_err, {"job": job, "extra": extra})
+             "second run raised %s where the first returned a tree" % other_err, {"job": job, "extra": extra})
         return
     if other == ref_enc:
         return
@@ -566,7 +848,7 @@ def compare(ctx, job, aux, ref_enc, other, how, other_err=None, extra=None):
     except Exception:
         pass
     viol(ctx, job, "determinism|%s|%s|%s" % (sim, cls, how),
-                  "%s: two runs of the same (parameters, seed) returned different trees (%s)" % (sim, cls), d)
+         "%s: two runs of the same (parameters, generator state) returned different trees (%s)" % (sim, cls), d)
 
 
 def run_children(ctx, jobs):
@@ -623,23 +905,107 @@ def run_children(ctx, jobs):
 
 
 # ------------------------------------------------------------------------------------------
-def monitored_run(ctx, mon, job, mode):
-    """one in-process run under the monitors: (call, result, encoding) or (call, None, None) when it raised."""
+def documented_errors(job):
+    """exceptions the job's call documents for its arguments."""
+    if job.get("norepeat") and job["sim"] in ("birth_death_tree", "fast_birth_death_tree"):
+        from dendropy.utility.error import TreeSimTotalExtinctionException
+        return (TreeSimTotalExtinctionException,)      # repeat_until_success=False: documented
+    return ()
+
+
+def monitored_run(ctx, mon, job, mode, call=None):
+    """one in-process run under the monitors; mode "explicit" / "default-omit" / "default-none"; ``call`` given =
+    the same argument objects again.  Returns (call, status, result, encoding), status "ok" / "documented-error" /
+    "unexpected" / "malformed" (returned something that cannot be walked as a tree: judged, not encoded)."""
     import dendropy.utility
-    call = prepare_any(job, mon)
+    if call is None:
+        call = U.prepare(job)
+    if isinstance(call, U.RandTreesCall):
+        call.mon = mon
     mon.job = job
     mon.last = None
+    ns = call.aux.get("ns")
+    call.aux["ns_before"] = [(id(t), t.label) for t in ns] if ns is not None else []
+    op = U.name(job)
     if mode == "explicit":
-        rng = random.Random(job["seed"])
+        rng = U.make_rng(job)
+        spell_none = False
     else:
-        dendropy.utility.GLOBAL_RNG.seed(job["seed"])
+        dendropy.utility.GLOBAL_RNG.setstate(U.make_rng(job).getstate())
         rng = None
-    ok, res = core.call(ctx, job["sim"], call.invoke, rng, detail={"job": job, "mode": mode})
+        spell_none = mode == "default-none"
+        if spell_none:
+            op = "%s(rng=None)" % op
+    status, res = "ok", None
+    try:
+        res = call.invoke(rng, spell_none=spell_none)
+    except core.CaseTimeout:
+        raise
+    except Exception as e:
+        allowed = documented_errors(job)
+        if allowed and isinstance(e, allowed):
+            ctx.ev("documented-error:%s:%s" % (op, type(e).__name__))
+            status = "documented-error"
+        else:
+            saved = ctx.case
+            ctx.case = {"kind": "jobs", "jobs": [job]}
+            try:
+                ctx.unexpected(op, e, {"job": job, "mode": mode})
+            finally:
+                ctx.case = saved
+            status = "unexpected"
     if mon.last and mon.last["hits"]:
         mon.fired = True
-    if not ok:
-        return call, None, None
-    return call, res, encode_any(job, res)
+    if status != "ok":
+        return call, status, None, None
+    try:
+        enc = U.encode_result(job, res)
+    except bridge.ExtractError:
+        return call, "malformed", res, None
+    return call, "ok", res, enc
+
+
+def reuse_comparable(job, call):
+    """may the second call on the same argument objects be compared with the first?  Only where the simulator
+    does not document changing its arguments (and the check did not change the request)."""
+    sim = job["sim"]
+    if sim in ("birth_death_tree", "fast_birth_death_tree"):
+        if job.get("n2", job["n"]) != job["n"]:
+            return False
+        ns = call.aux.get("ns")
+        return ns is None or call.aux.get("ns_first_len", 0) >= job["n"]     # else the namespace was grown
+    if sim == "constrained_kingman_tree":
+        return not job["decorate"]          # decorate_original_tree=True: the argument is documented to be changed
+    if sim == "containing_tree_kingman":
+        return not (job.get("method") == "embed" and job.get("fit"))
+    return True
+
+
+def reuse_step(ctx, mon, job, call, enc):
+    """the same argument objects (namespace / species tree / mapping / tree list / ContainingTree) once more."""
+    sim = job["sim"]
+    if sim == "containing_tree_kingman" and job.get("method") == "embed" and job.get("fit"):
+        ctx.ev("reuse:not-driven-containing-tree-refitted")
+        return
+    ns = call.aux.get("ns")
+    call.aux["ns_first_len"] = len(call.aux.get("ns_before") or []) if ns is not None else 0
+    call.reuse_setup(job)
+    mon.fired = False
+    call_r, status, res, enc_r = monitored_run(ctx, mon, job, "explicit", call=call)
+    ctx.ev("reuse:second-calls")
+    if status in ("documented-error", "unexpected"):
+        return
+    judge(ctx, job, res, call, tag=REUSE_TAG)
+    ctx.ev("reuse:second-calls-judged")
+    if mon.fired or enc is None:
+        return
+    if not reuse_comparable(job, call):
+        ctx.ev("reuse:comparison-not-applicable")
+        return
+    if enc_r is None:
+        ctx.ev("determinism:not-judged-malformed-tree")
+        return
+    compare(ctx, job, call.aux, enc, enc_r, "same-arguments-again")
 
 
 def run_jobs(ctx, jobs):
@@ -649,48 +1015,62 @@ def run_jobs(ctx, jobs):
         mon.install(hooks, inner)
         try:
             for job in jobs:
-                sim = job["sim"]
+                sim = U.name(job)
                 mon.fired = False
-                call, res, enc = monitored_run(ctx, mon, job, "explicit")
-                if res is None:
+                call, status, res, enc = monitored_run(ctx, mon, job, "explicit")
+                if status == "unexpected":
+                    continue
+                if status == "documented-error":
+                    # the second run from an equal generator state must end the same way
+                    call2, status2, res2, enc2 = monitored_run(ctx, mon, job, "explicit")
+                    ctx.ev("determinism:in-process-judged")
+                    if status2 in ("ok", "malformed"):
+                        viol(ctx, job, "determinism|%s|other-run-returned-a-tree|in-process" % sim,
+                             "first run raised a documented error, the second run from an equal generator state returned a tree",
+                             {"job": job})
                     continue
                 if mon.last and mon.last["restarts"]:
                     ctx.ev("restart:runs-that-restarted")
                     ctx.ev("restart:branch-executions", mon.last["restarts"])
                     ctx.ev("restart:%s" % sim)
                 judge(ctx, job, res, call)
-                if len(ctx.samples) < 6 and job["seed"] % 7 == 3:
+                if enc is not None and len(ctx.samples) < 6 and job["seed"] % 7 == 3:
                     ctx.sample({"job": job, "returned": [ref.to_newick(U.unflat(f))[:400] for f in enc[:2]],
                                 "restart_branch_executions": mon.last["restarts"] if mon.last else None})
+                fired_first = mon.fired
+                # (d) the same argument objects again
+                if job.get("reuse") and job["sim"] != "rand_trees":
+                    reuse_step(ctx, mon, job, call, None if fired_first else enc)
+                    mon.fired = fired_first
+                if enc is None:
+                    ctx.ev("determinism:not-judged-malformed-tree")
+                    continue
                 # (a) second in-process run with fresh arguments
-                call2, res2, enc2 = monitored_run(ctx, mon, job, "explicit")
+                call2, status2, res2, enc2 = monitored_run(ctx, mon, job, "explicit")
                 if mon.fired:
                     # the stray generator use is already reported; its consequences are not keyed a second time
                     ctx.ev("determinism:not-judged-tripwire-fired")
                     continue
                 firsts.append((job, call.aux, enc))
-                if res2 is not None:
+                if status2 == "ok":
                     compare(ctx, job, call.aux, enc, enc2, "in-process")
-                # re-use of the (mutated) species tree object: explored, not judged
-                if sim in U.GENE_SIMS and job["seed"] % 5 == 0:
-                    try:
-                        res3 = call.invoke(random.Random(job["seed"]))
-                        ctx.note("%s:reused-species-tree:%s" % (sim, "same-tree" if encode_any(job, res3) == enc else "different-tree"))
-                    except Exception as e:
-                        ctx.note("%s:reused-species-tree:raised-%s" % (sim, type(e).__name__))
+                elif status2 == "documented-error":
+                    compare(ctx, job, call.aux, enc, None, "in-process", other_err="a documented error")
                 # (c) default generator
-                if job.get("default"):
-                    call3, res3, enc3 = monitored_run(ctx, mon, job, "default")
-                    if res3 is not None and not mon.fired:
+                if job.get("default") and job["sim"] != "rand_trees":     # rand_trees(None, ...) seeds from the OS
+                    mode = "default-none" if job.get("defspell") == "none" else "default-omit"
+                    call3, status3, res3, enc3 = monitored_run(ctx, mon, job, mode)
+                    ctx.ev("determinism:default-generator-spelled-%s" % mode.split("-")[1])
+                    if status3 == "ok" and not mon.fired:
                         compare(ctx, job, call.aux, enc, enc3, "default-generator")
         finally:
             mon.reset()
     # (b) other interpreters
-    child_jobs = [j for j, aux, enc in firsts if j["sim"] != "rand_trees" and enc is not None]
+    by_job = [(j, aux, enc) for j, aux, enc in firsts if enc is not None]
+    child_jobs = [j for j, aux, enc in by_job]
     if not child_jobs:
         return
     results = run_children(ctx, child_jobs)
-    by_job = [(j, aux, enc) for j, aux, enc in firsts if j["sim"] != "rand_trees" and enc is not None]
     for label, res in results:
         if res is None:
             continue
@@ -711,9 +1091,10 @@ def run_case(case, ctx):
             job = U.make_job(rng, case.get("tier", ctx.tier))
             if rng.random() < 0.12:
                 job["default"] = True
+                job["defspell"] = rng.choice(["omit", "none"])
             jobs.append(job)
         if case["i"] % 8 == 0:
-            jobs.append({"sim": "rand_trees", "form": rng.choice(["mapping", "mapping+rng", "callable"]),
+            jobs.append({"sim": "rand_trees", "form": rng.choice(["mapping", "mapping+rng", "callable", "list", "list+rng"]),
                          "n": rng.randint(2, 12), "reps": 2, "birth": 1.0, "death": rng.choice([0.0, 0.5, 0.9]),
                          "seed": rng.randrange(1000)})
     run_jobs(ctx, jobs)
